@@ -587,6 +587,16 @@ func loadSpecs(path string) []HarnessSpec {
 	if err := json.Unmarshal(b, &specs); err != nil {
 		fatal("parse %s: %v", path, err)
 	}
+	// generated registry next to it
+	if filepath.Base(path) == "harnesses.json" {
+		if gb, err := os.ReadFile(filepath.Join(filepath.Dir(path), "gen_specs.json")); err == nil {
+			var gs []HarnessSpec
+			if err := json.Unmarshal(gb, &gs); err != nil {
+				fatal("parse gen_specs.json: %v", err)
+			}
+			specs = append(specs, gs...)
+		}
+	}
 	return specs
 }
 
